@@ -1,12 +1,16 @@
 /-
-  C17 — hand-written part of the model of `grid/coulomb.py`:
-  * `coulomb_potential` (multi-centre accumulation loop) on top of the *generated*
+  C17 — hand-written reference models of `grid/coulomb.py`:
+  * `coulombPotential` (multi-centre accumulation loop, per point) on top of the *generated*
     closed forms `Gen.Coulomb.coulombGaussianS/P`,
-  * `load_atomic_gaussian_params` (symbol normalisation, the two look-ups),
+  * `load` (symbol normalisation, the two look-ups),
   * the corrected p-type formula (what the potential of the documented p density is;
     the shipped `coulomb_gaussian_p` differs, see `Props/C17.lean`).
-  Tied to the implementation by correspondence (`harness/props/c17.py`).
-  No Mathlib import (linked into the driver).
+  Since round 2 `coulomb_potential` and `load_atomic_gaussian_params` themselves are translated
+  from the source (`Gen/CoulombPotential.lean`, `Gen/CoulombLoader.lean`, over the primitives of
+  `Model/CoulombPy.lean`) and *proved* equal to the reference models here
+  (`Props/C17/MultiGen.lean: potential_gen_eq_model`, `Props/C17/Loader.lean: loader_gen_eq_model`);
+  the driver runs the generated definitions.  `strip`/`title`/`rejectsArr` are primitives of the
+  generated code as well.  No Mathlib import (linked into the driver).
 -/
 import GridVerif.Model.Elem
 import GridVerif.Gen.Coulomb
